@@ -141,7 +141,20 @@ DiffDocs ==
   \cup {DiffDocOf(<<Act("=modify", << >>, << <<Mini("Node", 1), Mini("Way", 2), Mini("Node", 3)>> >>, << <<Mini("Way", 4), Mini("Relation", 5)>> >>),
                     Act("=delete", << >>, << <<Full("Relation", 6)>> >>, << >>)>>, <<Small("Changeset", 7), Full("Changeset", 8)>>)}
 
-Docs == OsmDocs \cup ChangeDocs \cup DiffDocs \cup ListPairDocs
+\* Several objects of one document that AGREE in one metadata field and differ in all others (the same uid under another
+\* user name, the same user with another uid, the same changeset / version / timestamp / id on different elements), for every
+\* pair of kinds carrying the field: what is decoded for one object must not depend on what an earlier object with the same
+\* key looked like.
+MetaKinds == {"Node", "Way", "Relation", "Changeset"}
+SharedFields == {"ID", "User", "UserID", "Version", "ChangesetID", "Timestamp"}
+WithField(o, f, x) == Obj(o.T, [o.f EXCEPT ![f] = x])
+SharedTriple(f, T1, T2) == <<Full(T1, 1), WithField(Full(T2, 4), f, Full(T1, 1).f[f]), WithField(Full(T1, 6), f, Full(T1, 1).f[f])>>
+SharedChoices == {c \in SharedFields \X MetaKinds \X MetaKinds : c[1] \in GoFields(c[2]) /\ c[1] \in GoFields(c[3])}
+SharedFieldDocs ==
+  {OsmDocOf(NoHdr, SharedTriple(c[1], c[2], c[3])) : c \in SharedChoices}
+  \cup {ChangeDocOf(NoHdr, <<Block("Create", <<SharedTriple(f, "Node", "Way")[1]>>), Block("Modify", <<SharedTriple(f, "Node", "Way")[2]>>),
+                             Block("Delete", <<SharedTriple(f, "Node", "Way")[3]>>)>>) : f \in SharedFields}
+Docs == OsmDocs \cup ChangeDocs \cup DiffDocs \cup ListPairDocs \cup SharedFieldDocs
 DocCase(d) == [doc |-> d, tree |-> DocTree(d), unk |-> <<UnknownAttr, UnknownElem>>]
 
 (* ---- Go-shaped values (C04 / C05) ---- *)
@@ -225,7 +238,35 @@ WithReps(c) == [g \in DOMAIN c \cup {"reps"} |-> IF g = "reps" THEN 8 ELSE c[g]]
 JsonNestedCases ==
   UNION {{WithReps([kind |-> "rt", root |-> "OSM", v |-> WholeOSM(Hdr({"Generator"}), CsItems(i, a, n))]),
           WithReps(JDoc(Vers[3], NoHdr, CsItems(i, a, n)))} : i \in 0 .. 2, a \in Acts3, n \in {2, 3, 4, 5}}
-JsonCases == RtCases \cup JsonDocCases \cup JsonCtlCases \cup JsonIdCases \cup JsonNestedCases
+\* Decoding must not depend on what the process decoded before - in particular not on documents that were REJECTED.
+\* Every case below decodes one or two ill-typed documents first (same goroutine, result discarded; the property says nothing
+\* about them) and then a valid document / the library's own output, eight times over; the valid one is judged as usual.
+\* An ill-typed document = a valid one with one member replaced by a value of the wrong JSON type, after at least one
+\* well-formed entry at the same place.
+JSetKey(t, name, x) == [t EXCEPT !.kv = [i \in 1 .. Len(@) |-> IF @[i][1] = K(name) THEN <<@[i][1], x>> ELSE @[i]]]
+JNum(l) == [j |-> "num", v |-> l]
+JStr(l) == [j |-> "str", v |-> l]
+GoodNodeTree == JsonOf("Node", Full("Node", 5).f)
+GoodWayTree == JsonOf("Way", Full("Way", 5).f)
+GoodRelTree == JsonOf("Relation", Full("Relation", 5).f)
+BadTagMaps == { [j |-> "map", kv |-> << <<"=phantom", JStr("s5")>>, <<"=capacity", JNum("#12")>> >>],
+                [j |-> "map", kv |-> << <<"=phantom", JStr("s5")>>, <<"=nested", JObj(<< <<"=a", JStr("s1")>> >>)>> >>],
+                [j |-> "map", kv |-> << <<"=phantom", JStr("s5")>>, <<"=flag", [j |-> "bool", v |-> "b1"]>>, <<"=other", JStr("s6")>> >>],
+                JArr(<<JStr("s5")>>) }
+BadElems ==
+  {JSetKey(t, "tags", m) : t \in {GoodNodeTree, GoodWayTree, GoodRelTree}, m \in BadTagMaps}
+  \cup {JSetKey(GoodWayTree, "nodes", JArr(<<JNum("i1"), JStr("s5"), JNum("i3")>>)),
+        JSetKey(GoodRelTree, "members", JArr(<<JObj(<< <<K("type"), JStr("=node")>>, <<K("ref"), JStr("s5")>>, <<K("role"), JStr("s1")>> >>)>>)),
+        JSetKey(GoodNodeTree, "id", JStr("s5")), JSetKey(GoodNodeTree, "timestamp", JNum("#12")), JSetKey(GoodNodeTree, "lat", JStr("s5")),
+        JSetKey(GoodNodeTree, "type", JStr("=area")), JSetKey(GoodWayTree, "user", JNum("#12"))}
+BadDocOf(e) == JObj(<< <<K("version"), JStr("=0.6")>>, <<K("elements"), JArr(<<GoodNodeTree, e, GoodWayTree>>)>> >>)
+AfterItems == <<Full("Node", 1), Full("Way", 2), Full("Relation", 3), Small("Changeset", 4)>>
+WithPre(c, pre) == [g \in DOMAIN c \cup {"reps", "pre"} |-> IF g = "reps" THEN 8 ELSE IF g = "pre" THEN pre ELSE c[g]]
+JsonAfterRejectCases ==
+  {WithPre(JDoc(Vers[3], NoHdr, AfterItems), <<BadDocOf(e)>>) : e \in BadElems}
+  \cup {WithPre([kind |-> "rt", root |-> "OSM", v |-> WholeOSM(Hdr({"Generator"}), AfterItems)], <<BadDocOf(e)>>) : e \in BadElems}
+  \cup {WithPre(JDoc(Vers[2], NoHdr, <<Mini("Node", 1), Full("Node", 2)>>), <<BadDocOf(e), JObj(<< <<K("elements"), JStr("s1")>> >>)>>) : e \in BadElems}
+JsonCases == RtCases \cup JsonDocCases \cup JsonCtlCases \cup JsonIdCases \cup JsonNestedCases \cup JsonAfterRejectCases
 
 VARIABLE case
 DInit == case \in {DocCase(d) : d \in Docs}
